@@ -2,7 +2,7 @@
    escapes produced are the ones the lexer reads back (backslash followed by a double quote,
    a backslash, b, f, n, r, t, or uXXXX).
    The Go loop ranges over the runes of the value; a byte that is not valid UTF-8 is
-   written as U+FFFD (such values are outside the round-trip law, DESIGN Appendix A). *)
+   written as it stands (since fixes/C08-invalid-utf8-bytes.patch). *)
 From Coq Require Import List NArith Bool.
 From GQL Require Import Base.Bytes Syntax.Lexer.
 Import ListNotations.
@@ -28,19 +28,37 @@ Definition quote_rune (r : N) : bytes :=
   else if (r <? 32) || (r =? 127) then [92; 117; 48; 48; hexdigit (r / 16); hexdigit (r mod 16)]
   else encode_rune r.
 
-Fixpoint quote_body (fuel : nat) (s : bytes) : res bytes :=
-  match fuel with
-  | O => OutOfFuel
-  | S f =>
-    match rune_at s with
-    | None => Ok []
-    | Some (r, n) =>
-      match quote_body f (dropN n s) with
-      | Ok rest => Ok (quote_rune r ++ rest)
-      | Err => Err
-      | OutOfFuel => OutOfFuel
+(* what the loop writes for the character decoded at the head of s: a byte that does not decode
+   (utf8.RuneError with width 1) is kept as it stands (fixes/C08-invalid-utf8-bytes.patch;
+   before that repair it was written as U+FFFD: [quote_piece_fffd]) *)
+Definition quote_piece (s : bytes) (r n : N) : bytes :=
+  if (r =? 65533) && (n =? 1) then takeN 1 s else quote_rune r.
+Definition quote_piece_fffd (s : bytes) (r n : N) : bytes := quote_rune r.
+
+Section QuoteBody.
+  Variable piece : bytes -> N -> N -> bytes.
+  Fixpoint quote_body_with (fuel : nat) (s : bytes) : res bytes :=
+    match fuel with
+    | O => OutOfFuel
+    | S f =>
+      match rune_at s with
+      | None => Ok []
+      | Some (r, n) =>
+        match quote_body_with f (dropN n s) with
+        | Ok rest => Ok (piece s r n ++ rest)
+        | Err => Err
+        | OutOfFuel => OutOfFuel
+        end
       end
-    end
+    end.
+End QuoteBody.
+Definition quote_body := quote_body_with quote_piece.
+(* quoteString before the repair: every byte that does not decode becomes U+FFFD *)
+Definition quote_string_fffd (s : bytes) : res bytes :=
+  match quote_body_with quote_piece_fffd (S (length s)) s with
+  | Ok b => Ok (34 :: b ++ [34])
+  | Err => Err
+  | OutOfFuel => OutOfFuel
   end.
 
 (* quoteString *)
